@@ -923,6 +923,18 @@ func rdfDrawDataset(c *Ctx) ([]*rdf.Statement, string) {
 				}
 			}
 			shape += "+blank-graph-names"
+			if nb > 1 && t.Choose(simrt.KWorkload, 2) == 1 {
+				// a self loop inside a graph named by another blank node:
+				// subject and object are found under one entry, the graph
+				// name has to be registered for the quad all the same
+				a := t.Choose(simrt.KWorkload, nb)
+				g := bl((a + 1 + t.Choose(simrt.KWorkload, nb-1)) % nb)
+				if t.Choose(simrt.KWorkload, 2) == 1 {
+					g = bl(nb) // a blank node that occurs nowhere else
+				}
+				ds = append(ds, rdfStmt(bl(a), rdfPreds[t.Choose(simrt.KWorkload, 3)], bl(a), g))
+				shape += "+self-loop-in-blank-graph"
+			}
 		}
 	}
 	return rdfSet(ds), shape
@@ -1054,6 +1066,17 @@ func runRDFC14n(c *Ctx) *Violation {
 					return viol("rdf-c14n/"+fn.name+"/output-unparsable", "output line %q: %v", l, err)
 				}
 				parsed = append(parsed, s)
+			}
+			// every blank node of the output carries a canonical label: a
+			// label of the input that survives makes the output depend on
+			// the input's labelling
+			c.Oracle("canonical-labels-only")
+			for _, s := range parsed {
+				for _, v := range []string{s.Subject.Value, s.Object.Value, s.Label.Value} {
+					if rdfIsBlank(v) && !strings.HasPrefix(v, "_:c14n") {
+						return viol("rdf-c14n/"+fn.name+"/input-label-in-output", "blank node %s of the output does not carry a canonical label\ndataset:\n%s\noutput:\n%s", v, rdfSerialize(orig), out)
+					}
+				}
 			}
 			// (URDNA2015/URGNA2012 rewrite literals and IRIs into their escaped normal form: compare after the same rewriting)
 			if iso, ok := rdfBruteIso(rdfNormalTerms(orig), rdfNormalTerms(parsed)); ok && !iso {
